@@ -165,6 +165,71 @@ def run(seed=0, n=200):
                     checks += 1
                     if g != w:
                         bad.append(("to_bytes", v, nbytes, order, signed, g, w))
+    # ---- models added for refactored code: multi-item struct formats, precompiled Struct objects, divmod, map, float conversion, sleep
+    import time as _time
+    for _ in range(n):
+        fmt = rnd.choice([">BL", ">Bh", ">BhBh", "<HB", ">cH"[:1] + "HH", "!LH", ">bB", "BB", ">Q", "<q"])
+        order, items = models.parse_fmt(fmt)
+        vals = []
+        for (sz, sg) in items:
+            lo, hi = (-(1 << (8 * sz - 1)), (1 << (8 * sz - 1)) - 1) if sg else (0, (1 << (8 * sz)) - 1)
+            vals.append(rnd.choice([lo, hi, rnd.randrange(lo, hi + 1), hi + 1 if rnd.random() < 0.15 else rnd.randrange(lo, hi + 1)]))
+        E.reset([])
+        g = outcome(lambda: conc(E.call(struct.pack, [fmt] + vals)))
+        w = outcome(lambda: native_kind(struct.pack(fmt, *vals)))
+        checks += 1
+        if g != w:
+            bad.append(("pack*", fmt, vals, g, w))
+        st = struct.Struct(fmt)
+        g = outcome(lambda: conc(models.method(E, st, "pack", list(vals), {})))
+        checks += 1
+        if g != w:
+            bad.append(("Struct.pack", fmt, vals, g, w))
+        size = struct.calcsize(fmt)
+        buf = bytes(rnd.randrange(256) for _ in range(rnd.choice([size, size, size + rnd.randrange(0, 3), max(0, size - 1)])))
+        g = outcome(lambda: conc(E.call(struct.unpack, [fmt, to_engine(buf)])))
+        w = outcome(lambda: struct.unpack(fmt, buf))
+        checks += 1
+        if g != w:
+            bad.append(("unpack*", fmt, list(buf), g, w))
+        off = rnd.randrange(0, 3)
+        g = outcome(lambda: conc(E.call(struct.unpack_from, [fmt, to_engine(buf), off])))
+        w = outcome(lambda: struct.unpack_from(fmt, buf, off))
+        checks += 1
+        if g != w:
+            bad.append(("unpack_from", fmt, list(buf), off, g, w))
+        a, b = rnd.randrange(-5000, 5000), rnd.choice([rnd.randrange(1, 200), -rnd.randrange(1, 50), 148, 0 if rnd.random() < 0.1 else 26])
+        x = z3.Int("st.dm")
+        E.reset([])
+        E.assume(x == a)
+
+        def dm_():
+            q, r = models.m_divmod(E, SInt(x), b)
+            f = lambda t: t if isinstance(t, int) else z3.simplify(z3.substitute(models.zint(t), (x, z3.IntVal(a)))).as_long()
+            return (f(q), f(r))
+        g, w = outcome(dm_), outcome(lambda: divmod(a, b))
+        checks += 1
+        if g != w:
+            bad.append(("divmod", a, b, g, w))
+        # int * float / int / float with a huge int: OverflowError exactly when CPython raises it
+        big = rnd.choice([10 ** 400, -(10 ** 400), (1 << 1024) - (1 << 970), (1 << 1024) - (1 << 970) - 1, 12345, -7])
+        y = z3.Int("st.big")
+        for op, f in ((ast.Mult, lambda v: v * 1e-9), (ast.Div, lambda v: v / 1000.0)):
+            E.reset([])
+            E.assume(y == big)
+            g = outcome(lambda: "float" if models.binop(E, op, SInt(y), 1e-9 if op is ast.Mult else 1000.0) is not None else None)
+            w = outcome(lambda: "float" if f(big) is not None else None)
+            checks += 1
+            if g != w:
+                bad.append(("int-float", op.__name__, big, g, w))
+        # time.sleep argument range (never sleeps: only arguments CPython refuses are executed natively)
+        t = rnd.choice([-1, -0.5, 1e10, 9.3e9, 2 ** 70])
+        E.reset([])
+        g = outcome(lambda: models.m_sleep(E, t))
+        w = outcome(lambda: _time.sleep(t))
+        checks += 1
+        if g != w:
+            bad.append(("sleep", t, g, w))
     # ---- whole functions of the toolkit on concrete objects
     dm = toolkit("data_msg")
     gs = toolkit("gsm_shared")
